@@ -16,8 +16,16 @@ impl Drop for Guard {
 }
 
 fn route_sender(tx: IpcSender<Vec<u8>>, route: u32, from: u32, sizes: Vec<u64>, hold: bool, gap_us: u64) {
+    route_sender_c(tx, route, from, sizes, hold, gap_us, None)
+}
+/// `crash`: (sim-process id, k) - the sending process dies before its k-th system call of the last send
+fn route_sender_c(tx: IpcSender<Vec<u8>>, route: u32, from: u32, sizes: Vec<u64>, hold: bool, gap_us: u64, crash: Option<(u32, u64)>) {
     let mut q = from;
-    for len in sizes {
+    let n = sizes.len();
+    for (i, len) in sizes.into_iter().enumerate() {
+        if let (Some((pid, k)), true) = (crash, i + 1 == n) {
+            sim::arm_crash(pid, k);
+        }
         if gap_us > 0 {
             sim::sleep_ns(gap_us * 1000);
         }
@@ -26,6 +34,10 @@ fn route_sender(tx: IpcSender<Vec<u8>>, route: u32, from: u32, sizes: Vec<u64>, 
         let r = tx.send(p);
         hist::log(if r.is_ok() { "send.ok" } else { "send.err" }, route as i64, q as i64, 0, "");
         q += 1;
+    }
+    if let Some((pid, _)) = crash {
+        sim::disarm_crash(pid);
+        sim::crash_now();
     }
     if hold {
         hist::log("hold", route as i64, 0, 0, "");
@@ -59,7 +71,7 @@ impl Scenario for C07S {
         }
     }
     fn rule(&self) -> &'static str {
-        "case = 1..32 routes registered from 1..8 threads on a fresh RouterProxy (or the global ROUTER): callback routes with a drop guard, routes to a new crossbeam receiver, routes to a caller-supplied bounded crossbeam sender with a slow consumer; 0..50 messages per route queued before registration and more in flight afterwards, single/multi-packet; senders dropped or held; EINTR / short batches in the router's wait; seeded schedule; non-trivial = >=2 routes and (messages queued before registration or >=2 registering threads); distinct = distinct (workload, schedule hash)"
+        "case = 1..32 routes registered from 1..8 threads on a fresh RouterProxy (or the global ROUTER): callback routes with a drop guard, routes to a new crossbeam receiver, routes to a caller-supplied bounded crossbeam sender with a slow consumer; 0..50 messages per route queued before registration and more in flight afterwards, single/multi-packet; senders dropped or held, some in other sim-processes that die at the k-th system call of their last send; EINTR / short batches in the router's wait; seeded schedule; non-trivial = >=2 routes and (messages queued before registration or >=2 registering threads); distinct = distinct (workload, schedule hash)"
     }
     fn gen(&self, seed: u64, idx: u64, _tier: Tier, variant: &str) -> Value {
         let mut r = Rng::stream(seed, idx.wrapping_mul(2654435761).wrapping_add(0xC07));
@@ -95,6 +107,9 @@ impl Scenario for C07S {
                 "thread": r.below(nthreads),
                 // drop the only sender before the route is registered (already disconnected when added)
                 "drop_before_add": r.chance(1, 8),
+                // the later sender lives in another sim-process, which may die at the k-th call of its last send
+                "proc": !inproc && nroutes <= 12 && r.chance(1, 5),
+                "crash_at": if r.chance(1, 2) { json!(r.below(9)) } else { Value::Null },
             }));
         }
         let mut faults = vec![];
@@ -204,7 +219,13 @@ impl Scenario for C07S {
                     }
                     hist::log("route.ret", route as i64, 0, 0, "");
                     if let Some(tx) = tx.take() {
-                        sim::spawn(&format!("sender{}", route), None, move || route_sender(tx, route, 1000, post, hold, gap));
+                        if rt["proc"].as_bool().unwrap_or(false) && !cfg!(feature = "inproc") && route <= 12 {
+                            let pid = 8 + route;
+                            let crash = rt["crash_at"].as_u64().map(|k| (pid, k));
+                            super::util::spawn_process(&format!("sender{}", route), pid, tx, move |tx: IpcSender<Vec<u8>>| route_sender_c(tx, route, 1000, post, hold, gap, crash));
+                        } else {
+                            sim::spawn(&format!("sender{}", route), None, move || route_sender(tx, route, 1000, post, hold, gap));
+                        }
                     }
                 }
             });
@@ -212,7 +233,18 @@ impl Scenario for C07S {
         let blocked = sim::settle();
 
         // ------------------------------------------------------------ oracle
-        let evs = hist::events();
+        // a sender whose sim-process died: gone from the crash on, certainly gone once reaped
+        let mut merged: Vec<hist::Ev> = hist::events().to_vec();
+        for e in hist::events() {
+            if e.a >= 8 && (e.op == "crash" || e.op == "crash.reaped") {
+                let mut d = e.clone();
+                d.op = if e.op == "crash" { "drop.inv" } else { "drop.ret" };
+                d.a = e.a - 8;
+                merged.push(d);
+            }
+        }
+        merged.sort_by_key(|e| e.seq);
+        let evs = &merged[..];
         let nroutes = routes.len();
         for route in 1..=nroutes as i64 {
             let ok: Vec<i64> = evs.iter().filter(|e| e.op == "send.ok" && e.a == route).map(|e| e.b).collect();
